@@ -336,6 +336,9 @@ func runC14RoundTrip(c c14Case, st *verifkit.Stats) *verifkit.Failure {
 	if err := UpdatePathAggregator4ByteAs(rbody); err != nil {
 		return verifkit.Failf("agg-reconstruct-error", "aggregator reconstruction failed: %v", err)
 	}
+	if f := c14LenConsistent(rbody); f != nil {
+		return f
+	}
 	rasp, ras4, ragg, ragg4 := c14FindAttrs(rbody)
 	if ras4 != nil || ragg4 != nil {
 		return verifkit.Failf("as4-left", "AS4_PATH/AS4_AGGREGATOR still present after reconstruction")
@@ -401,6 +404,22 @@ func runC14RoundTrip(c c14Case, st *verifkit.Stats) *verifkit.Failure {
 	return nil
 }
 
+// c14LenConsistent: the reconstructed attributes are what the server stores and relays.  The length each reports is
+// what the UPDATE packer budgets with, so it has to be the length it serialises to (else a full UPDATE overruns the
+// maximum message size and is dropped whole).
+func c14LenConsistent(body *bgp.BGPUpdate) *verifkit.Failure {
+	for _, a := range body.PathAttributes {
+		b, err := a.Serialize()
+		if err != nil {
+			return verifkit.Failf("reconstructed-unserialisable", "reconstructed %v does not serialise: %v", a.GetType(), err)
+		}
+		if a.Len() != len(b) {
+			return verifkit.Failf("reconstructed-length", "reconstructed %v reports %d octets and serialises to %d", a.GetType(), a.Len(), len(b))
+		}
+	}
+	return nil
+}
+
 func runC14Pair(c c14Case, st *verifkit.Stats) *verifkit.Failure {
 	st.Label("mode-pair")
 	// what an OLD speaker chain delivers: a 2-octet AS_PATH and any AS4_PATH
@@ -461,6 +480,11 @@ func runC14Pair(c c14Case, st *verifkit.Stats) *verifkit.Failure {
 	rbody := rx.Body.(*bgp.BGPUpdate)
 	UpdatePathAttrs4ByteAs(c14Logger, rbody)
 	aggErr := UpdatePathAggregator4ByteAs(rbody)
+	if aggErr == nil {
+		if f := c14LenConsistent(rbody); f != nil {
+			return f
+		}
+	}
 	rasp, ras4, ragg, _ := c14FindAttrs(rbody)
 	if ras4 != nil {
 		return verifkit.Failf("as4-left", "AS4_PATH still present after reconstruction")
